@@ -644,6 +644,21 @@ def long_session_stage(ev, prop, tier, seed, timeout=1500):
     return mism, cases
 
 
+def short_strings_stage(ev, prop, tier, seed, timeout=2400):
+    """ShortStrings: every string of length <= 4 (thorough 5) over a 17-symbol alphabet, judged by the recogniser."""
+    cases = os.path.join(WORK, f"{prop}-short-{os.getpid()}.cases")
+    r = run_tlc("ShortStrings", env={"VERIF_TIER": tier}, cases_path=cases, timeout=timeout)
+    ev.add_tlc("ShortStrings", r, "all strings over the alphabet up to the length bound (exhaustive); invariant Sanity")
+    mism, summary = run_replay("replay", ["--checks", "reject,accept"], cases)
+    ev.traces += summary["cases"]
+    ev.evaluations += summary["cases"]
+    ev.distinct_nontrivial += summary["distinct"]
+    _acc(ev, summary)
+    ev.extra["short_strings"] = {"strings": summary["cases"], "exhaustive_up_to_length": 5 if tier == "thorough" else 4,
+                                 "verdicts": {k: v for k, v in summary.get("checks", {}).items() if k.startswith("verdict_")}}
+    return mism, cases
+
+
 def GS(prop, mode, checks):
     return lambda ev, tier, seed: grammar_stage(ev, prop, mode, checks, tier, seed)
 
